@@ -2260,3 +2260,7 @@ m("C11", "syntax-error-reported-with-working-copy", "tales.py",
 m("C12", "formatter-reopens-file-strictly", "exc.py",
   "                    f = open(filename, errors='replace')\n",
   "                    f = open(filename)\n")
+
+m("C08", "item-unpacked-per-context", C,
+  '''        assignment = [ast.Assign(targets=targets[:1], value=load("__item"))]''',
+  '''        assignment = [ast.Assign(targets=targets, value=load("__item"))]''')
